@@ -193,17 +193,26 @@ def one_case(ctx, rng, ci):
         ctx.reject("underlying-assess:" + common.exc_mechanism(e))
     # edit / update with argument changes (extra arguments change, stored stay)
     new_args = list(args)
-    for i in range(split, nparams):
+    lo = 0 if rng.random() < 0.5 else split
+    for i in range(lo, nparams):
         if rng.random() < 0.6:
             new_args[i] = gen.gen_value(rng, node.arg_specs[i], 0.0) if not isinstance(args[i], build.PyVal) else args[i]
     new_args = tuple(new_args)
     rn = engine.real_args(new_args)
     vals2 = engine.gen_constraint(rng, case, rec0, args) if rec0 is not None else {}
     chm2 = obs.build_constraint(vals2)
-    hist.append(f"edit Update({_drive._short(vals2, 100)}) new_args={_drive._short(new_args, 100)}")
+    from genjax import Regenerate
+
+    if rng.random() < 0.5:
+        rterm = obs.gen_selection(rng, node, depth=1) if rng.random() < 0.7 else ("none",)
+        request = Regenerate(obs.build_selection(rterm))
+        hist.append(f"edit Regenerate({rterm}) new_args={_drive._short(new_args, 100)}")
+    else:
+        request = Update(chm2)
+        hist.append(f"edit Update({_drive._short(vals2, 100)}) new_args={_drive._short(new_args, 100)}")
     try:
         full_ad = Diff.unknown_change(rn)
-        t0, w0, rd0, b0 = gf.edit(key, tr0, Update(chm2), full_ad)
+        t0, w0, rd0, b0 = gf.edit(key, tr0, request, full_ad)
     except Exception as e:
         ctx.reject("underlying-edit:" + common.exc_mechanism(e))
         t0 = None
@@ -221,8 +230,17 @@ def one_case(ctx, rng, ci):
             base_tr = tr1
         # stored / keyword arguments cannot change through a closure: only compare when they did not
         unchanged_fixed = all(engine.args_equal((args[i],), (new_args[i],)) for i in range(nparams) if i < split or (form == "kwargs" and pnames[i] in kw))
+        if not unchanged_fixed and form in ("closure", "kwargs"):
+            # the stored / keyword values changed: the closure that carries the NEW values edits
+            # the old trace, which must equal the underlying edit with the full new arguments
+            if form == "closure":
+                wrapped = gf(*rn[:split])
+            else:
+                wrapped = gf(*rn[:split], **{pnames[i]: rn[i] for i in range(nparams - len(kw), nparams)})
+            ctx.count("closure_rebuilt_with_new_stored_args")
+            unchanged_fixed = True
         if base_tr is not None and (unchanged_fixed or form == "handle_kwargs"):
-            out = guarded("edit", lambda: wrapped.edit(key, base_tr, Update(chm2), ad))
+            out = guarded("edit", lambda: wrapped.edit(key, base_tr, request, ad))
             if out is not None:
                 t1, w1, rd1, b1 = out
                 _cmp(ctx, case, form, "edit", _obs_trace(node, t1), _obs_trace(node, t0), "trace" if form == "closure" else "noargs", hist)
@@ -237,7 +255,7 @@ def one_case(ctx, rng, ci):
                     pass
                 nontriv = nontriv or form == "handle_kwargs"
     elif t0 is not None and form == "partial_apply":
-        out = guarded("edit", lambda: wrapped.edit(key, tr1, Update(chm2), Diff.unknown_change(tuple(rn[split:])))) if tr1 is not None and all(engine.args_equal((args[i],), (new_args[i],)) for i in range(split)) else None
+        out = guarded("edit", lambda: wrapped.edit(key, tr1, request, Diff.unknown_change(tuple(rn[split:])))) if tr1 is not None and all(engine.args_equal((args[i],), (new_args[i],)) for i in range(split)) else None
         if out is not None:
             t1, w1, rd1, b1 = out
             _cmp(ctx, case, form, "edit", _obs_trace(node, t1)[:3] + (None,), _obs_trace(node, t0)[:3] + (None,), "noargs", hist)
